@@ -29,10 +29,12 @@ Theorem C12_leaf_checks_mode_indep :
 Proof. exact run_checks_mode_indep. Qed.
 Print Assumptions C12_leaf_checks_mode_indep.
 
-(* without the guards the modes do differ: multi-error mode panics where default mode reports *)
-Theorem C12_refuted_bad_pattern :
+(* formerly a difference between the modes (repaired in /repo): an uncompilable pattern is reported
+   in multi-error mode as in default mode *)
+Example C12_bad_pattern_all_modes :
   let c := mkCore None [] false false false false "" false false false None None None 0 None "[" 0 None [] 0 None None in
   let s := Sch c None [] [] [] None [] None in
-  is_panic (visit (fun _ => false) (fun _ _ => true) (fun _ _ _ => None) st_multi_ s (JStr "a")) = true /\
-  is_panic (visit (fun _ => false) (fun _ _ => true) (fun _ _ _ => None) st_default s (JStr "a")) = false.
-Proof. vm_compute. split; reflexivity. Qed.
+  accepts (visit (fun _ => false) (fun _ _ => true) (fun _ _ _ => None) st_multi_ s (JStr "a")) = false /\
+  is_panic (visit (fun _ => false) (fun _ _ => true) (fun _ _ _ => None) st_multi_ s (JStr "a")) = false /\
+  accepts (visit (fun _ => false) (fun _ _ => true) (fun _ _ _ => None) st_default s (JStr "a")) = false.
+Proof. vm_compute. repeat split. Qed.
